@@ -147,7 +147,7 @@ def run_shard(spec, M):
     elif fam == "noisy":
         for i in range(spec["start"], spec["start"] + spec["n"]):
             r = rng(spec["seed"], ID, "noisy", i)
-            L = noisy.gen(r, 40)
+            L = noisy.gen_any(r, 40)
             check_lines(L, M, {"kind": "lines", "L": L})
     elif fam == "thresholds":
         # long look-ahead windows, long tables/tag runs/comment runs: sizes around 10, 32, 64, 100, 128, 256, 512, 1000, 1024
